@@ -44,6 +44,11 @@ def run(P, rep, tier):
     rep.attempt(r2_symlink_precedence, P, rep, ctx, tier)
     rep.attempt(r3_outside_links, P, rep, ctx)
     rep.attempt(r4_structure, P, rep, ctx)
+    # equal trees <=> equal content also for the consumer of the trees: the diff compares two hashsum trees as given, entry by
+    # entry (wiring rules of C18.R4), it does not normalise them first
+    from . import c18 as _c18
+
+    rep.attempt(_c18.r4_wiring, P, rep, ctx)
     rep.floor("C19.R1", 8)
     rep.floor("C19.R2", 1)
     rep.floor("C19.R3", 3)
